@@ -250,4 +250,131 @@ theorem keepws_textNormal_flag (keep om : Bool) (data : List Char) (rest : List 
       · exact Or.inr ⟨l, hl, hw⟩
     · next hw => simp [hw] at h
 
+
+/-! ## attributes -/
+
+/-- what the write loop can write for one attribute: nothing, or ` name` followed — for a non-empty value of a
+    non-boolean attribute — by `=` and the value as `EscapeAttrVal` renders it with `mustQuote = KeepQuotes ∨ isXML` -/
+def AttrShape (o : Opts) (x : AttrSt) (out : List Char) : Prop :=
+  out = [] ∨ ∃ val, out = ' ' :: x.name ++
+    (if !val.isEmpty && !has (attrTraits x.a.name) C03Tables.booleanAttr then
+      '=' :: escapeAttrVal val (origQuote x.a.data) (o.keepQuotes || isXmlAttr x.hash) else [])
+
+/-- the reasons other than a default value for which the write loop drops an attribute of a known element: an
+    empty `class`/`dir`/`id`/`name`/form-`action`, a `style` or event-handler attribute (dropped when its
+    minified content is empty) -/
+def nonDefaultDrop (tag : List Char) (x : AttrSt) : Bool :=
+  tagTraits tag != 0 &&
+  (((attrVal0 (has (attrTraits x.a.name) C03Tables.trimAttr) x.val).isEmpty &&
+      (hashIs x.hash "class" || hashIs x.hash "dir" || hashIs x.hash "id" || hashIs x.hash "name" ||
+        (hashIs x.hash "action" && hashIs tag "form"))) ||
+   hashIs x.hash "style" || (2 < x.name.length && x.name.take 2 == s "on"))
+
+theorem ite_bind_ok {α β : Type} (c : Prop) [Decidable c] (m1 m2 : Except String α) (k : α → Except String β)
+    (r : β) (h : (if c then m1 >>= k else m2 >>= k) = .ok r) : ∃ a, k a = .ok r := by
+  split at h
+  · cases m1 with
+    | error e => cases h
+    | ok a => exact ⟨a, h⟩
+  · cases m2 with
+    | error e => cases h
+    | ok a => exact ⟨a, h⟩
+
+theorem bind_ok {α β : Type} (m : Except String α) (k : α → Except String β)
+    (r : β) (h : (m >>= k) = .ok r) : ∃ a, k a = .ok r := by
+  cases m with
+  | error e => cases h
+  | ok a => exact ⟨a, h⟩
+
+theorem writeAttr_shape (o : Opts) (ext : Ext) (sub : Sub) (tag rawTag : List Char) (x : AttrSt)
+    (out : List Char) (mt : Option (List Char)) (hx : x.keep = true) (ht : x.a.tmpl = false)
+    (h : writeAttr o ext sub tag rawTag x = .ok (out, mt)) :
+    AttrShape o x out ∧ (o.keepDefaultAttrVals = true → out = [] → nonDefaultDrop tag x = true) := by
+  unfold writeAttr at h
+  rw [if_neg (by simp [hx]), if_neg (by simp [ht])] at h
+  simp only [] at h
+  unfold AttrShape nonDefaultDrop
+  by_cases htt : tagTraits tag = 0
+  · rw [if_pos htt] at h
+    cases h
+    exact ⟨Or.inr ⟨_, rfl⟩, fun _ h => by simp at h⟩
+  · rw [if_neg htt] at h
+    have htt' : (tagTraits tag != 0) = true := by simpa using htt
+    split at h
+    · next he =>
+      cases h
+      refine ⟨Or.inl rfl, fun _ _ => ?_⟩
+      simp only [htt', Bool.true_and]
+      simp only [Bool.and_eq_true] at he
+      simp [he.1, he.2]
+    · obtain ⟨val1, hK⟩ := ite_bind_ok _ _ _ _ _ h
+      clear h
+      split at hK
+      · next hdef =>
+        cases hK
+        refine ⟨Or.inl rfl, fun hk _ => ?_⟩
+        simp [hk] at hdef
+      · split at hK
+        · next hst =>
+          split at hK
+          · cases hK; exact ⟨Or.inl rfl, fun _ _ => by simp [htt', hst]⟩
+          · cases hK; exact ⟨Or.inr ⟨_, rfl⟩, fun _ h => by simp at h⟩
+        · split at hK
+          · next hon =>
+            have hnd : (decide (tagTraits tag = 0) = false) ∧
+                (decide (2 < x.name.length) && List.take 2 x.name == s "on") = true := ⟨by simpa using htt, hon⟩
+            split at hK <;> split at hK <;>
+              first
+              | (cases hK; exact ⟨Or.inl rfl, fun _ _ => by simp [htt', hnd.2]⟩)
+              | (cases hK; exact ⟨Or.inr ⟨_, rfl⟩, fun _ h => by simp at h⟩)
+          · split at hK
+            · obtain ⟨v, hv⟩ := bind_ok _ _ _ hK
+              cases hv; exact ⟨Or.inr ⟨_, rfl⟩, fun _ h => by simp at h⟩
+            · cases hK; exact ⟨Or.inr ⟨_, rfl⟩, fun _ h => by simp at h⟩
+
+/-- an attribute that carries a template expression is written byte for byte, whatever the options -/
+theorem writeAttr_template (o : Opts) (ext : Ext) (sub : Sub) (tag rawTag : List Char) (x : AttrSt)
+    (hx : x.keep = true) (ht : x.a.tmpl = true) :
+    writeAttr o ext sub tag rawTag x = .ok (x.a.data, none) := by
+  simp [writeAttr, hx, ht]
+
+/-! ## `KeepDefaultAttrVals` and the special cases before the write loop -/
+
+/-- K-C16-2: the `value` attribute of an `input` element that has a `type` attribute is removed when its value is
+    the default for that type (`""` for the text-like types, `on` for `radio`) — whatever `KeepDefaultAttrVals` says -/
+def inputValueTrigger (as : List AttrSt) : Bool :=
+  match lastIdx as "type", lastIdx as "value" with
+  | some ti, some vi =>
+    let typ := (as[ti]?.map (·.val)).getD []
+    let vv := (as[vi]?.map (·.val)).getD []
+    (isTextLike typ && vv.isEmpty) || (equalFold typ "radio" && equalFold vv "on")
+  | _, _ => false
+
+theorem modifyAt_keep_of_val (as : List AttrSt) (i : Nat) (f : AttrSt → AttrSt) (hf : ∀ x, (f x).keep = x.keep) :
+    (modifyAt as i f).map (·.keep) = as.map (·.keep) := by
+  unfold modifyAt
+  apply List.ext_getElem?
+  intro j
+  simp only [List.getElem?_map, List.getElem?_mapIdx]
+  cases as[j]? with
+  | none => rfl
+  | some x => simp only [Option.map_some]; split <;> simp [hf]
+
+theorem specialAttrs_input_keep (ext : Ext) (as as' : List AttrSt)
+    (h : specialAttrs ext (s "input") as = .ok as') (g : inputValueTrigger as = false) : as' = as := by
+  unfold specialAttrs at h
+  have h1 : hashIs (s "input") "meta" = false := by decide
+  have h2 : hashIs (s "input") "script" = false := by decide
+  have h3 : hashIs (s "input") "input" = true := by decide
+  simp only [h1, h2, h3, Bool.false_eq_true, if_false, if_true] at h
+  unfold inputValueTrigger at g
+  split at h
+  · next ti vi hti hvi =>
+    rw [hti, hvi] at g
+    simp only at g h
+    rw [g] at h
+    simp only [Bool.false_eq_true, if_false] at h
+    cases h; rfl
+  · cases h; rfl
+
 end Verif.Proofs.C16HtmlOpt
